@@ -183,6 +183,7 @@ var c07dec = gen.Register(&gen.Check[caseC07dec]{
 	},
 	Required: []string{"accepted", "reject:empty", "reject:length", "reject:range", "reject:hex", "near-n"},
 	Run: func(c caseC07dec, o *gen.Obs) error {
+		hostileCaller()
 		data := gen.HexBytes(c.Data)
 		if c.Nil {
 			data = nil
@@ -294,6 +295,7 @@ var c07enc = gen.Register(&gen.Check[caseC07enc]{
 	},
 	Required: []string{"mont-domain", "leading-zero-byte"},
 	Run: func(c caseC07enc, o *gen.Obs) error {
+		hostileCaller()
 		s := c.S.Build()
 		v := c.S.Value()
 		want := ref.Bytes32(v)
